@@ -69,31 +69,12 @@ Proof.
   specialize (S Hh Hc 0%nat VNull). vm_compute in S. destruct (S eq_refl) as (r & E1 & E2). inversion E1; subst. discriminate.
 Qed.
 
-(* reading a column index outside the fixture reloads every attribute over the pending values *)
-Lemma C05_coherent_stmt_false_range : ~ C05_coherent_stmt.
-Proof.
-  intros H.
-  pose proof (H cfgT [OCreate Lazy [(1%nat, VInt 1)]; OSetAttr 0 0 (VInt 5); ORead 0 7] 0%nat eq_refl) as S.
-  cbn zeta in S. assert (Hh : held (run cfgT [OCreate Lazy [(1%nat, VInt 1)]; OSetAttr 0 0 (VInt 5); ORead 0 7]) 0) by solve_side.
-  assert (Hc : current (run cfgT [OCreate Lazy [(1%nat, VInt 1)]; OSetAttr 0 0 (VInt 5); ORead 0 7]) 0) by solve_side.
-  specialize (S Hh Hc 0%nat VNull). vm_compute in S. specialize (S eq_refl). discriminate S.
-Qed.
-
-Lemma C05_read_stmt_false : ~ C05_read_stmt.
-Proof.
-  intros H.
-  pose proof (H cfgT [OCreate Lazy [(1%nat, VInt 1)]; OSetAttr 0 0 (VInt 5); ORead 0 7] 0%nat 0%nat 0%nat
-                (fst (step cfgT (run cfgT [OCreate Lazy [(1%nat, VInt 1)]; OSetAttr 0 0 (VInt 5); ORead 0 7]) (ORead 0 0)))
-                (snd (step cfgT (run cfgT [OCreate Lazy [(1%nat, VInt 1)]; OSetAttr 0 0 (VInt 5); ORead 0 7]) (ORead 0 0)))
-                eq_refl ltac:(lia)) as S.
-  cbn zeta in S. vm_compute in S. specialize (S eq_refl eq_refl eq_refl). discriminate S.
-Qed.
+(* (the former witnesses C05_coherent_stmt_false_range / C05_read_stmt_false -- a reload of a dirty lazy
+   instance hid its pending values -- no longer exist: the reload now overlays the pending values, repair ab43260) *)
 
 Print Assumptions C04_unique_stmt_false.
 Print Assumptions C04_unpickle_no_duplicate_stmt_false.
 Print Assumptions C04_get_returns_held_stmt_false.
 Print Assumptions C04_deleted_not_returned_stmt_false.
 Print Assumptions C05_coherent_stmt_false_nocv.
-Print Assumptions C05_coherent_stmt_false_range.
-Print Assumptions C05_read_stmt_false.
 Print Assumptions C04_unique_stmt_false_nocache.
